@@ -135,6 +135,12 @@ def run(ctx):
             tt = tie.add({"kind": "tree", "entries": [(0o100644, b"big.bin", hb), (0o100644, b"small", sb)]})
             cc = tie.add({"kind": "commit", "tree": tt, "parents": [base_c], "date": 1600000100, "msg": b"b%d\n" % i})
             tie.refs.append((b"refs/heads/b%d" % i, cc))
+        # ... and sibling user-defined refgroups (top-level ones, and children of one parent), each with members: the order of
+        # their rows in the table must be a function of the configuration, not of a hash seed
+        for i in (5, 2, 7, 0, 3, 6):
+            tie.config += [("refgroup.grp%d.include" % i, "refs/heads/b%d" % i), ("refgroup.grp%d.name" % i, "Group %d" % i)]
+        for i in (4, 1, 6, 3):
+            tie.config += [("refgroup.tags.rel%d.include" % i, "refs/tags/t%d" % i)]
         tie.compute()
         d = os.path.join(eng.scratch, "ties")
         tie.materialise(d)
@@ -151,7 +157,7 @@ def run(ctx):
                 elif out != first:
                     dl = [(a, b) for a, b in zip(first.split(b"\n"), out.split(b"\n")) if a != b][:1]
                     res.violations.append(vlib.Violation("two runs on the same repository produced different stdout",
-                                                         {"args": fmt, "repository": "8 annotated tags on one commit, 8 same-second branches sharing the biggest blob", "run": k},
+                                                         {"args": fmt, "repository": "8 annotated tags on one commit, 8 same-second branches sharing the biggest blob, 6 + 4 sibling refgroups from gitconfig", "run": k},
                                                          expected=str(dl[0][0] if dl else b"")[:300], observed=str(dl[0][1] if dl else b"")[:300]))
                     break
         shutil.rmtree(d, ignore_errors=True)
